@@ -2,7 +2,14 @@
 
 RT half: E3 over programs of (nested) routines on the real clocks, every
 schedule within the preemption/lateness bound.  NRT half: E1, the same
-programs (plus AppClock) under NrtMain."""
+programs (plus AppClock) under NrtMain.
+
+Two generations of programs: programs() with the closed-form reference
+expected() (also used by C07), and programs_ext() (audit round: other entry
+points, raising siblings, re-based clocks, late starts, deeper nesting, own
+tempo changes, other values and routine forms ...) with the reference
+interpreter reference(); both references agree on every program of
+programs()."""
 
 from mc import core
 from mc.engines import progenum
@@ -10,9 +17,10 @@ from mc.engines import progenum
 MODE = 'rt'
 MODNAME = 'mc.checks.c05'
 
-TEMPO = {'s': 1.0, 't1': 1.0, 't2': 2.0, 'th': 0.5, 'a': 1.0}
+TEMPO = {'s': 1.0, 't1': 1.0, 't2': 2.0, 'th': 0.5, 'a': 1.0, 't3': 3.0}
 CLOCKSPEC = {'s': ['system'], 't1': ['tempo', 1.0], 't2': ['tempo', 2.0],
-             'th': ['tempo', 0.5], 'a': ['app']}
+             'th': ['tempo', 0.5], 'a': ['app'], 't3': ['tempo', 3.0]}
+TOL = 1e-9      # relative tolerance of the non-dyadic family (p['tol'])
 
 
 def REPLAY_MODE(v):
@@ -230,7 +238,707 @@ def expected_conducted(prog):
     return {'r0': res, 'k0': kt}
 
 
+# ---------------------------------------------------------------------------
+# Reference interpreter (audit round): a discrete-event reading of a program
+# written from the property statement only.  It knows clocks as affine maps
+# beats <-> seconds, routines as statement lists and the rules
+#   * a task woken at beat b that yields d is due at beat b + d of its clock;
+#   * a routine started (play / clock.play / sched / sched_abs) from a
+#     routine begins at the starter's logical time (sched: + delta in the
+#     target clock's units; sched_abs: at the given beat);
+#   * an inner routine stepped with next() sees the caller's logical time;
+#   * a tempo change keeps the beat of the instant and of every pending task.
+# Same-instant events never interact in the generated programs, so their
+# order is a don't-care.
+# ---------------------------------------------------------------------------
+
+def _kind_of(rid):
+    return {'c': 'child', 'n': 'inner'}.get(rid[0], 'top')
+
+
+def reference(prog, mode='nrt', p_sleep=None):
+    """-> dict(res={rid: [(secs, beats|None)]}, logs=[(who, secs)],
+    xtempo=set of clocks whose tempo a routine of another clock changed,
+    last=latest instant).  `p_sleep`: physical instant main is at after its
+    k-th sleep (RT; default nominal)."""
+    clocks = {}
+    for cid, spec in prog['clocks'].items():
+        clocks[cid] = [spec[1] if spec[0] == 'tempo' else 1.0, 0.0, 0.0]
+
+    def b2s(cid, b):
+        c = clocks[cid]
+        return (b - c[2]) / c[0] + c[1]
+
+    def s2b(cid, s):
+        c = clocks[cid]
+        return (s - c[1]) * c[0] + c[2]
+
+    routines = prog['routines']
+    funcs = prog.get('funcs', {})
+    res = {rid: [] for rid in routines}
+    logs = []
+    tbeats = []
+    xtempo = set()
+    pend = []
+    seq = [0]
+    pc = {rid: 0 for rid in routines}
+    dead = set()
+    calls = {}
+    clock_of = {}
+
+    def add(name, cid, beat):
+        pend.append([name, cid, beat, seq[0]])
+        seq[0] += 1
+        clock_of[name] = cid
+
+    def set_tempo(cid, v, t):
+        b = s2b(cid, t)
+        clocks[cid] = [v, b2s(cid, b), b]
+
+    def start(op, t, own):
+        """play/cplay/sched/sched_abs issued at logical time t."""
+        if op[0] in ('play', 'cplay', 'rrun', 'drun'):
+            cid = op[2] or own
+            add(op[1], cid, s2b(cid, t))
+        elif op[0] == 'sched':
+            add(op[3], op[1], s2b(op[1], t) + op[2])
+        elif op[0] == 'sched_abs':
+            add(op[3], op[1], op[2])
+
+    def step(rid, t, beats, own, thread):
+        """Run routine rid from its pc to its next yield at logical time t.
+        -> delta | None"""
+        res[rid].append((t, beats))
+        body = routines[rid]
+        while pc[rid] < len(body):
+            st = body[pc[rid]]
+            pc[rid] += 1
+            op = st[0]
+            if op == 'yield':
+                return st[1]
+            if op == 'yieldv':
+                return None
+            if op == 'raise':
+                dead.add(rid)
+                return None
+            if op in ('play', 'cplay', 'sched', 'sched_abs', 'rrun', 'drun'):
+                start(st, t, own)
+            elif op == 'tbeats':
+                tbeats.append((rid, s2b(own, t)))
+            elif op == 'yreset':
+                n = calls.get(('yreset', rid), 0) + 1
+                calls[('yreset', rid)] = n
+                if n < st[2]:
+                    pc[rid] = 0
+                    return st[1]
+            elif op in ('tempo', 'etempo'):
+                # (etempo acts at the physical instant: used in NRT only,
+                # where that is the logical time of the running task)
+                if st[1] != thread:
+                    xtempo.add(st[1])
+                set_tempo(st[1], st[2], t)
+            elif op == 'reset':
+                pc[st[1]] = 0
+                dead.discard(st[1])
+            elif op == 'next':
+                if st[1] not in dead:
+                    step(st[1], t, None, 's', thread)
+            elif op == 'log':
+                logs.append((rid, t))
+            elif op == 'block':
+                pass
+            else:
+                raise ValueError(f'reference: unknown statement {st}')
+        dead.add(rid)
+        return None
+
+    mt = 0.0
+    nsleep = 0
+    for op in prog['actors']['main']:
+        if op[0] == 'sleep':
+            if mode == 'rt':
+                mt = mt + op[1]
+                if p_sleep is not None and nsleep < len(p_sleep):
+                    mt = p_sleep[nsleep]
+            nsleep += 1
+        elif op[0] == 'tempo':
+            set_tempo(op[1], op[2], mt)
+        elif op[0] == 'beats':
+            clocks[op[1]] = [clocks[op[1]][0], mt, op[2]]
+        else:
+            start(op, mt, 's')
+    last = None
+    guard = 0
+    while pend:
+        guard += 1
+        if guard > 10000:
+            raise ValueError('reference: program does not end')
+        pend.sort(key=lambda e: (b2s(e[1], e[2]), e[3]))
+        name, cid, beat, _ = pend.pop(0)
+        t = b2s(cid, beat)
+        last = t if last is None else max(last, t)
+        if name in routines:
+            if name in dead:
+                continue
+            d = step(name, t, s2b(cid, t), cid, cid)
+        else:
+            k = calls.get(name, 0)
+            calls[name] = k + 1
+            spec = funcs[name]
+            if k in spec.get('raises', []):
+                d = None
+            else:
+                rets = spec.get('returns', [None])
+                d = rets[k] if k < len(rets) else None
+        if isinstance(d, (int, float)) and not isinstance(d, bool):
+            add(name, cid, beat + d)
+    return {'res': res, 'logs': logs, 'xtempo': xtempo, 'last': last,
+            'clock_of': clock_of, 'tbeats': tbeats}
+
+
+def _close(a, b, tol):
+    if tol:
+        return abs(a - b) <= tol * (1.0 + abs(a) + abs(b))
+    return a == b
+
+
+# ---------------------------------------------------------------------------
+# Extended program families (audit round).  Every program carries p['x'] =
+# family name; ops 'cplay' (clock.play(routine, quant)) and 'sched_abs' with
+# a routine are interpreted by the Run subclass below.
+# ---------------------------------------------------------------------------
+
+def xprog(routines, main, funcs=None, x='', **kw):
+    used = set()
+    for op in main:
+        if op[0] in ('play', 'cplay', 'rrun', 'drun') and op[2]:
+            used.add(op[2])
+        elif op[0] in ('sched', 'sched_abs', 'tempo', 'beats'):
+            used.add(op[1])
+    for body in routines.values():
+        for st in body:
+            if st[0] in ('play', 'cplay', 'rrun', 'drun') and st[2]:
+                used.add(st[2])
+            elif st[0] in ('sched', 'sched_abs', 'tempo', 'etempo'):
+                used.add(st[1])
+    clocks = {'s': ['system']}
+    for c in sorted(used):
+        clocks[c] = CLOCKSPEC[c]
+    p = {'clocks': clocks, 'routines': routines, 'funcs': funcs or {},
+         'actors': {'main': main}, 'x': x}
+    p.update(kw)
+    last = reference(p, 'rt')['last'] or 0.0
+    p['horizon'] = last + 4.0
+    return p
+
+
+def ys(seq):
+    return [['yield', d] for d in seq]
+
+
+def programs_ext(tier, mode):
+    """-> list of (bound class, program); bound class 'a' = the tier's main
+    bound, 'b' = one step smaller (long / crowded programs)."""
+    out = []
+    rt = mode == 'rt'
+    tops = ['s', 't2', 'th'] if rt else ['s', 't1', 't2', 'th', 'a']
+    tempos = [c for c in tops if c[0] == 't']
+
+    def others(c, n=None):
+        return [x for x in tops if x != c][:n or (2 if rt else 4)]
+
+    # -- F1 other entry points: clock.sched(d, routine), clock.play(routine,
+    # quant 0), clock.sched_abs(t, routine), from main and from a routine
+    for c in tops:
+        for d in (0, 0.5, 1):
+            out.append(('a', xprog({'r0': ys([0.25, 0.5])},
+                                   [['sched', c, d, 'r0']], x='entry-main')))
+        out.append(('a', xprog({'r0': ys([0.25, 0.5])},
+                               [['cplay', 'r0', c, 0]], x='entry-main')))
+        if c != 'a':
+            for T in (0, 0.5, 2):
+                out.append(('a', xprog({'r0': ys([0.25, 0.5])},
+                                       [['sched_abs', c, T, 'r0']],
+                                       x='entry-main')))
+        for cc in [c] + others(c):
+            for d in (0, 0.25, 1):
+                out.append(('a', xprog(
+                    {'r0': [['yield', 0.25], ['sched', cc, d, 'c0'],
+                            ['yield', 0.25]], 'c0': ys([0.5])},
+                    [['play', 'r0', c, 0]], x='entry-inside')))
+            out.append(('a', xprog(
+                {'r0': [['yield', 0.25], ['cplay', 'c0', cc, 0],
+                        ['yield', 0.25]], 'c0': ys([0.5])},
+                [['play', 'r0', c, 0]], x='entry-inside')))
+            if cc != 'a':
+                out.append(('a', xprog(
+                    {'r0': [['yield', 0.25], ['sched_abs', cc, 1.0, 'c0'],
+                            ['yield', 0.25]], 'c0': ys([0.5])},
+                    [['play', 'r0', c, 0]], x='entry-inside')))
+    for c in tops:
+        for op in ('rrun', 'drun'):
+            out.append(('a', xprog({'r0': ys([0.25, 0.5])},
+                                   [[op, 'r0', c]], x='entry-main')))
+            for cc in (None, others(c)[0]):
+                out.append(('a', xprog(
+                    {'r0': [['yield', 0.25], [op, 'c0', cc],
+                            ['yield', 0.25]], 'c0': ys([0.5])},
+                    [['play', 'r0', c, 0]], x='entry-inside')))
+    # routine functions of other forms: generator without argument, plain
+    # function (runs once; starts children), YieldAndReset(delta) loops
+    for c in tops:
+        cc = others(c)[0]
+        out.append(('a', xprog(
+            {'r0': [['yield', 0.25], ['play', 'c0', cc, 0], ['yield', 0.5]],
+             'c0': ys([0.25, 0.25])}, [['play', 'r0', c, 0]],
+            x='forms', forms={'r0': 'noinval', 'c0': 'noinval'})))
+        out.append(('a', xprog(
+            {'r0': [['yield', 0.25], ['play', 'c0', cc, 0], ['yield', 0.5]],
+             'c0': [['play', 'c1', c, 0], ['sched', cc, 0.5, 'c2']],
+             'c1': ys([0.25]), 'c2': ys([0.25])}, [['play', 'r0', c, 0]],
+            x='forms', forms={'c0': 'func'})))
+        out.append(('a', xprog(
+            {'r0': [['play', 'c0', cc, 0], ['sched', c, 0.5, 'c1']],
+             'c0': ys([0.25]), 'c1': ys([0.25])}, [['sched', c, 0.5, 'r0']],
+            x='forms', forms={'r0': 'func'})))
+        for d in (0.5, 0):
+            out.append(('a', xprog(
+                {'r0': [['tbeats'], ['yield', 0.25], ['yreset', d, 3]],
+                 'r1': [['yield', 0.5], ['play', 'c0', cc, 0],
+                        ['play', 'c1', None, 0], ['yreset', 0.25, 2]],
+                 'c0': ys([0.25]), 'c1': []},
+                [['play', 'r0', c, 0], ['play', 'r1', c, 0]], x='forms')))
+    # the running thread's own beats (main.current_tt._beats, what the time
+    # patterns read) agree with the clock it plays on
+    for c in tops:
+        for cc in [None] + others(c):
+            out.append(('a', xprog(
+                {'r0': [['tbeats'], ['yield', 0.25], ['tbeats'],
+                        ['play', 'c0', cc, 0], ['yield', 0.5], ['tbeats']],
+                 'c0': [['tbeats'], ['yield', 0.25], ['tbeats']]},
+                [['play', 'r0', c, 0]], x='threadbeats')))
+    # -- F2 other tasks that raise or re-schedule themselves, in the same
+    # batch / on another clock
+    F = {'fr': {'raises': [0]}, 'fk': {'returns': [0.25, 0.25, None]},
+         'fq': {'returns': [0.25, None], 'raises': [1]}}
+    for c in tops:
+        for oc in [c] + others(c, 1):
+            for fid in sorted(F):
+                for first in (True, False):
+                    pl = [['play', 'r0', c, 0]]
+                    sc = [['sched', oc, 0.25, fid]]
+                    out.append(('a', xprog(
+                        {'r0': ys([0.25, 0.25, 0.25])},
+                        (sc + pl) if first else (pl + sc),
+                        funcs={fid: F[fid]}, x='errors')))
+            for first in (True, False):
+                pl = [['play', 'r0', c, 0]]
+                pe = [['play', 'e0', oc, 0]]
+                out.append(('a', xprog(
+                    {'r0': ys([0.25, 0.25, 0.25]),
+                     'e0': [['yield', 0.25], ['raise']]},
+                    (pe + pl) if first else (pl + pe), x='errors')))
+        # the routine's own child raises at its start
+        out.append(('a', xprog(
+            {'r0': [['yield', 0.25], ['play', 'c0', None, 0],
+                    ['yield', 0.25], ['yield', 0.25]],
+             'c0': [['raise']]}, [['play', 'r0', c, 0]], x='errors')))
+    # -- F3 tempo clocks whose beats / tempo were set before the routine
+    # starts (non-zero base beats, tempo other than the initial one)
+    for c in tempos:
+        t0 = TEMPO[c]
+        for B in (None, 3.0, -1.5):
+            for v in (None, 4.0 * t0, 0.25 * t0):
+                if B is None and v is None:
+                    continue
+                for order in (0, 1):
+                    conf = []
+                    if B is not None:
+                        conf.append(['beats', c, B])
+                    if v is not None:
+                        conf.append(['tempo', c, v])
+                    if order:
+                        if len(conf) < 2:
+                            continue
+                        conf.reverse()
+                    out.append(('a', xprog(
+                        {'r0': [['yield', 0.5], ['play', 'c0', 's', 0],
+                                ['yield', 0.25], ['yield', 1]],
+                         'c0': ys([0.25])},
+                        conf + [['play', 'r0', c, 0]], x='preconf')))
+                    out.append(('a', xprog(
+                        {'r0': [['yield', 0.25], ['play', 'c0', c, 0],
+                                ['sched', c, 0.5, 'c1'], ['yield', 0.5]],
+                         'c0': ys([0.5]), 'c1': ys([0.25])},
+                        conf + [['play', 'r0', 's', 0]], x='preconf')))
+    # -- F4 (RT) top-level routines started at a later physical instant:
+    # main sleeps first; a SystemClock timer is due at the very instant main
+    # wakes up, so main's own wake-up is subject to lateness
+    if rt:
+        for c in tops:
+            for conf in ([], [['beats', c, 3.0]] if c[0] == 't' else None):
+                if conf is None:
+                    continue
+                out.append(('b', xprog(
+                    {'x0': ys([0.5]),
+                     'r0': [['yield', 0.25], ['play', 'c0', others(c)[0], 0],
+                            ['yield', 0.5]], 'c0': ys([0.25]),
+                     'r1': ys([0.5])},
+                    conf + [['play', 'x0', 's', 0], ['sleep', 0.5],
+                            ['play', 'r0', c, 0], ['sched', c, 0.25, 'r1']],
+                    x='latestart')))
+    # -- F5 deeper nesting
+    for c in tops:
+        for c1 in [c] + others(c):
+            for c2 in (None, c, 's'):
+                out.append(('a', xprog(
+                    {'r0': [['yield', 0.25], ['play', 'c0', c1, 0],
+                            ['yield', 0.25]],
+                     'c0': [['yield', 0.25], ['play', 'c9', c2, 0],
+                            ['yield', 0.25]],
+                     'c9': ys([0.5])}, [['play', 'r0', c, 0]], x='nest')))
+            for c2 in [c] + others(c):
+                out.append(('a', xprog(
+                    {'r0': [['play', 'c0', c1, 0], ['yield', 0.25],
+                            ['play', 'c1', c2, 0], ['yield', 0.5]],
+                     'c0': ys([0.5, 0.25]), 'c1': ys([0.25])},
+                    [['play', 'r0', c, 0]], x='nest')))
+            out.append(('a', xprog(
+                {'r0': [['next', 'n0'], ['yield', 0.5], ['next', 'n0'],
+                        ['yield', 0.25], ['next', 'n0']],
+                 'n0': [['yieldv', 'x'], ['play', 'c0', c1, 0],
+                        ['yieldv', 'y'], ['yieldv', 'z']],
+                 'c0': ys([0.25])}, [['play', 'r0', c, 0]], x='nest')))
+        out.append(('a', xprog(
+            {'r0': [['next', 'n0'], ['yield', 0.25], ['next', 'n0'],
+                    ['yield', 0.5], ['next', 'n0']],
+             'n0': [['next', 'n1'], ['yieldv', 'x'], ['next', 'n1'],
+                    ['yieldv', 'y'], ['next', 'n1'], ['yieldv', 'z']],
+             'n1': [['yieldv', 'p'], ['yieldv', 'q'], ['yieldv', 'r']]},
+            [['play', 'r0', c, 0]], x='nest')))
+    # a finished child is reset and played again later: the second run
+    # starts at the parent's logical time of that moment
+    for c in tops:
+        for c1 in [c] + others(c, 1):
+            out.append(('a', xprog(
+                {'r0': [['play', 'c0', c1, 0], ['yield', 2],
+                        ['reset', 'c0'], ['play', 'c0', c1, 0],
+                        ['yield', 0.5]],
+                 'c0': ys([0.125])}, [['play', 'r0', c, 0]], x='replay')))
+    # -- F6 a routine changes the tempo of the clock it plays on (once or
+    # twice); another routine of that clock and one of SystemClock are
+    # pending meanwhile.  And conductors acting at the very beat the player
+    # is due.
+    for c in tempos:
+        t0 = TEMPO[c]
+        for v in (2.0 * t0, 0.5 * t0, 4.0 * t0):
+            for v2 in (None, t0):
+                body = [['yield', 0.5], ['tempo', c, v], ['yield', 0.5],
+                        ['yield', 0.25]]
+                if v2:
+                    body += [['tempo', c, v2], ['yield', 0.5]]
+                out.append(('b', xprog(
+                    {'r0': body, 'r1': ys([1.0, 1.0]),
+                     'r2': ys([0.5, 0.5, 0.5])},
+                    [['play', 'r0', c, 0], ['play', 'r1', c, 0],
+                     ['play', 'r2', 's', 0]], x='selftempo')))
+        for cc in ('s', c):
+            at = 1.0 if cc == c else 1.0 / t0
+            for v in (2.0 * t0, 0.5 * t0):
+                out.append(('a', xprog(
+                    {'r0': ys([1.0, 1.0, 1.0]),
+                     'k0': [['yield', at], ['tempo', c, v]]},
+                    [['play', 'r0', c, 0], ['play', 'k0', cc, 0]],
+                    x='tie-conductor')))
+            if not rt:
+                # etempo (tempo set at the physical instant = in NRT the
+                # logical instant of the running task), tie and no tie
+                for at2 in (at, 1.5 * at):
+                    for v in (2.0 * t0, 0.5 * t0):
+                        out.append(('a', xprog(
+                            {'r0': ys([1.0, 1.0, 1.0]),
+                             'k0': [['yield', at2], ['etempo', c, v]],
+                             'r2': ys([0.75, 0.75, 0.75])},
+                            [['play', 'r0', c, 0], ['play', 'k0', cc, 0],
+                             ['play', 'r2', 's', 0]], x='etempo')))
+        if not rt:
+            for v in (2.0 * t0, 0.5 * t0):
+                out.append(('a', xprog(
+                    {'r0': [['yield', 0.5], ['etempo', c, v],
+                            ['yield', 0.5], ['yield', 0.25]],
+                     'r1': ys([1.0, 1.0])},
+                    [['play', 'r0', c, 0], ['play', 'r1', c, 0]],
+                    x='etempo')))
+    # -- F7 values: int deltas; non-dyadic deltas and tempo 3 (compared with
+    # a relative tolerance of TOL)
+    for c in tops:
+        for seq in ([1], [1, 0.5], [2, 1], [1, 0, 1]):
+            out.append(('a', xprog({'r0': ys(seq)}, [['play', 'r0', c, 0]],
+                                   x='int-delta')))
+            out.append(('a', xprog(
+                {'r0': [['yield', seq[0]], ['play', 'c0', others(c)[0], 0]]
+                 + ys(seq[1:]), 'c0': ys([1, 0.5])},
+                [['play', 'r0', c, 0]], x='int-delta')))
+    # (NRT only: under virtual time a timer that is due at a non-dyadic
+    # instant is never seen as due by the 1024 s based physical clock)
+    for c in ([] if rt else ['s', 't3', 't2', 'a']):
+        for cc in ('t3', 's'):
+            out.append(('a', xprog(
+                {'r0': [['yield', 0.1], ['yield', 0.3],
+                        ['play', 'c0', cc, 0], ['yield', 0.1],
+                        ['yield', 0.7]], 'c0': ys([0.3, 0.1])},
+                [['play', 'r0', c, 0]], x='nondyadic', tol=TOL)))
+    for c in tops:
+        out.append(('a', xprog(
+            {'r0': [['yield', 0.375], ['play', 'c0', others(c)[0], 0],
+                    ['yield', 0.0625], ['yield', 1.5]],
+             'c0': ys([0.0625, 0.375])},
+            [['play', 'r0', c, 0]], x='fine-dyadic')))
+    # -- F8 long sequences
+    for c in tops:
+        out.append(('b', xprog(
+            {'r0': ys([0.25] * 4) + [['play', 'c0', others(c)[0], 0]]
+             + ys([0.25] * 4), 'c0': ys([0.25] * 3)},
+            [['play', 'r0', c, 0]], x='long')))
+        out.append(('b', xprog({'r0': ys([0.5, 0.25] * 3)},
+                               [['play', 'r0', c, 0]], x='long')))
+    # -- F9 logical time stands still inside one resumption while physical
+    # time passes
+    for c in tops:
+        out.append(('a', xprog(
+            {'r0': [['log'], ['yield', 0.25], ['block', 0.5], ['log'],
+                    ['play', 'c0', others(c)[0], 0], ['block', 0.5],
+                    ['log'], ['yield', 0.25], ['log']],
+             'c0': [['log'], ['yield', 0.25], ['log']]},
+            [['play', 'r0', c, 0]], x='blocklog')))
+    # -- F9b (RT) another thread reads logical time (which sets the main
+    # time thread to physical time) between the routines' wake-ups
+    if rt:
+        for c in tops:
+            p = xprog(
+                {'r0': [['yield', 0.25], ['play', 'c0', others(c)[0], 0],
+                        ['yield', 0.25], ['yield', 0.25]],
+                 'c0': ys([0.25, 0.25])}, [['play', 'r0', c, 0]],
+                x='poller')
+            p['actors']['X'] = [['sleep', 0.125], ['log'], ['sleep', 0.25],
+                                ['log'], ['sleep', 0.25], ['log']]
+            out.append(('b', p))
+    # -- F10 many tasks of one clock due at the same instants
+    for c in tops:
+        out.append(('b', xprog(
+            {'r0': ys([0.25, 0.25]), 'r1': ys([0.5]),
+             'r2': ys([0.25, 0.5]), 'r3': ys([0, 0.25])},
+            [['play', 'r0', c, 0], ['play', 'r1', c, 0],
+             ['sched', c, 0.25, 'fk'], ['play', 'r2', c, 0],
+             ['play', 'r3', c, 0]],
+            funcs={'fk': {'returns': [0.25, None]}}, x='crowd')))
+    return out
+
+
+def check_result_x(prog, res, mode):
+    """Oracle of the extended families: compares with reference()."""
+    dis = []
+    if res['status'] != 'ok':
+        return [(res['status'], 'execution completes', res.get('detail'),
+                 '')]
+    got = {}
+    glogs = {}
+    gtb = {}
+    for e in res['trace']:
+        if e[0] == 'res':
+            got.setdefault(e[1], []).append((e[4], e[5]))
+        elif e[0] == 'log':
+            glogs.setdefault(e[1], []).append(e[3])
+        elif e[0] == 'tbeats':
+            gtb.setdefault(e[1], []).append(e[3])
+        elif e[0] == 'raises':
+            dis.append(('api-call-raises', 'no exception', e[1:], ''))
+    late = res.get('late_total', 0) > 0 if mode == 'rt' else False
+    main = prog['actors']['main']
+    p_sleep = None
+    if mode == 'rt' and late and any(op[0] == 'sleep' for op in main):
+        # main woke up late: the physical instant it is at is not decided by
+        # the program; it is read off the routine played right after the
+        # sleep (whose start is therefore not compared), everything else
+        # must be consistent with it
+        p_sleep = []
+        nominal = 0.0
+        for i, op in enumerate(main):
+            if op[0] == 'sleep':
+                nominal += op[1]
+                h = got.get(main[i + 1][1])
+                p_sleep.append(h[0][0] if h else nominal)
+    ref = reference(prog, mode, p_sleep)
+    tol = prog.get('tol')
+    forms = prog.get('forms', {})
+    for rid, want in ref['res'].items():
+        have = got.get(rid, [])
+        kc = _kind_of(rid)
+        if len(have) != len(want):
+            dis.append((f'{mode}-resumption-count-{kc}', len(want),
+                        len(have), f'{rid}: {have}'))
+            continue
+        # a tempo change made from another clock's thread can overtake a
+        # *late* wake-up of a routine of that clock: then only its beats are
+        # decided by the statement
+        beats_only = late and ref['clock_of'].get(rid) in ref['xtempo']
+        for k, ((ws, wb), (hs, hb)) in enumerate(zip(want, have)):
+            if not beats_only and not _close(hs, ws, tol):
+                dis.append((f'{mode}-logical-seconds-{kc}'
+                            + ('-start' if k == 0 else ''), ws, hs,
+                            f'{rid} resumption {k}'))
+                break
+            if hb is None and forms.get(rid) == 'noinval':
+                # the routine function takes no (routine, clock) argument:
+                # no clock to ask for beats until the first yield returns
+                continue
+            if wb is not None and (hb is None or not _close(hb, wb, tol)):
+                dis.append((f'{mode}-logical-beats-{kc}'
+                            + ('-start' if k == 0 else ''), wb, hb,
+                            f'{rid} resumption {k}'))
+                break
+    wl = {}
+    for who, t in ref['logs']:
+        wl.setdefault(who, []).append(t)
+    for who, want in wl.items():
+        have = glogs.get(who, [])
+        if len(have) != len(want) or not all(
+                _close(h, w, tol) for h, w in zip(have, want)):
+            dis.append((f'{mode}-logical-time-moves-inside-resumption',
+                        want, have, who))
+    wt = {}
+    for who, b in ref['tbeats']:
+        wt.setdefault(who, []).append(b)
+    for who, want in wt.items():
+        have = gtb.get(who, [])
+        if len(have) != len(want) or not all(
+                _close(h, w, tol) for h, w in zip(have, want)):
+            dis.append((f'{mode}-thread-beats', want, have, who))
+    if mode == 'rt':
+        for name, exc in res['dead']:
+            dis.append(('clock-thread-died', None, [name, exc], ''))
+    else:
+        prev = None
+        for t in res.get('wakeups', []):
+            if prev is not None and t < prev:
+                dis.append(('nrt-logical-time-decreases', f'>= {prev}', t,
+                            str(res['wakeups'])))
+                break
+            prev = t
+        if ref['last'] is not None and \
+                not _close(res['elapsed'], ref['last'], tol):
+            dis.append(('nrt-elapsed-not-last-instant', ref['last'],
+                        res['elapsed'], ''))
+        if res.get('wakeups'):
+            last = max(res['wakeups'])
+            if res['elapsed'] != last:
+                dis.append(('nrt-elapsed-not-last-instant', last,
+                            res['elapsed'], 'observed wake-ups'))
+    return dis
+
+
+class _Ext:
+    """While active, mc.rtprog interprets programs with a Run subclass that
+    knows more operations: ['cplay', rid, cid, quant] = clock.play(routine,
+    quant), ['sched_abs', cid, t, rid] with a routine, ['rrun', rid, cid] =
+    Routine.run(f, clock, 0), ['drun', rid, cid] = routine.run(clock, 0)(f)
+    (other entry points for starting a routine), ['etempo', cid, v],
+    ['tbeats'] (log main.current_tt._beats), ['yreset', d, n] (leave with
+    YieldAndReset(d)) and routine forms prog['forms'][rid] = 'noinval' |
+    'func'."""
+
+    def __enter__(self):
+        from mc import rtprog
+        self.rtprog = rtprog
+        self.old = rtprog.Run
+        base = self.old
+
+        class Run(base):
+            def _body(self, rid, stmts):
+                b = base._body(self, rid, stmts)
+                form = self.prog.get('forms', {}).get(rid)
+                run = self
+                if form == 'noinval':
+                    # generator function without the (routine, clock)
+                    # argument
+                    def body0():
+                        return (yield from b(None))
+                    body0.__qualname__ = rid
+                    return body0
+                if form == 'func':
+                    # plain function: the routine runs once
+                    def bodyf(inval):
+                        clock = inval[1]
+                        run.ev('res', rid, 0, run.now(), clock.seconds,
+                               clock.beats, run.late(),
+                               run.clockname(clock))
+                        for st in stmts:
+                            run.do(st, rid, clock)
+                    bodyf.__qualname__ = rid
+                    return bodyf
+                return b
+
+            def do(self, st, who, clock=None):
+                from sc3.base import stream as stm
+                from sc3.base.main import main
+                op = st[0]
+                if op == 'yreset':
+                    # leave the routine with YieldAndReset(delta) the first
+                    # N - 1 times, end normally the N-th time
+                    n = self.calls.get(('yreset', who), 0) + 1
+                    self.calls[('yreset', who)] = n
+                    if n < st[2]:
+                        raise stm.YieldAndReset(st[1])
+                    return
+                if op == 'tbeats':
+                    tt = main.current_tt
+                    self.ev('tbeats', who, tt._seconds, tt._beats)
+                    return
+                if op in ('cplay', 'etempo', 'rrun', 'drun') or (
+                        op == 'sched_abs' and st[3] in self.routines):
+                    try:
+                        if op == 'etempo':
+                            self.clocks[st[1]].etempo(st[2])
+                        elif op == 'cplay':
+                            self.clocks[st[2]].play(self.routines[st[1]],
+                                                    st[3])
+                        elif op in ('rrun', 'drun'):
+                            f = self._body(st[1],
+                                           self.prog['routines'][st[1]])
+                            c = self.clocks[st[2]] if st[2] else None
+                            if op == 'rrun':
+                                r = stm.Routine.run(f, c, 0)
+                            else:
+                                r = stm.routine.run(c, 0)(f)
+                            self.routines[st[1]] = r
+                            self.names[id(r)] = st[1]
+                        else:
+                            self.clocks[st[1]].sched_abs(
+                                st[2], self.routines[st[3]])
+                    except Exception as e:
+                        self.ev('raises', who, st, type(e).__name__,
+                                str(e)[:200])
+                        if who in self.routines:
+                            raise
+                    return
+                return base.do(self, st, who, clock)
+        rtprog.Run = Run
+        return self
+
+    def __exit__(self, *a):
+        self.rtprog.Run = self.old
+        return False
+
+
+def run_rt(prog, prefix):
+    from mc import rtprog
+    with _Ext():
+        return rtprog.run_rt(prog, prefix)
+
+
 def check_result(prog, res, mode):
+    if 'x' in prog:
+        return check_result_x(prog, res, mode)
     dis = []
     if res['status'] != 'ok':
         return [(res['status'], 'execution completes', res.get('detail'),
@@ -296,7 +1004,7 @@ def work_rt(job):
     acc = progenum.Acc(max_samples=1)
     for prog in job['progs']:
         def run(prefix, prog=prog):
-            return rtprog.run_rt(prog, prefix)
+            return run_rt(prog, prefix)
 
         def on_result(choices, points, res, prog=prog):
             pre, late = schedx.cost_of(points, choices)
@@ -323,7 +1031,8 @@ def run_nrt(prog):
         return orig(self, time)
     clk.ClockTask._wakeup = _wakeup
     try:
-        res = rtprog.run_nrt(prog)
+        with _Ext():
+            res = rtprog.run_nrt(prog)
     finally:
         clk.ClockTask._wakeup = orig
     res['wakeups'] = wake
@@ -350,8 +1059,7 @@ def replay(job):
         res = run_nrt(prog)
         dis = check_result(prog, res, 'nrt')
     else:
-        from mc import rtprog
-        _, _, res = rtprog.run_rt(prog, case['choices'])
+        _, _, res = run_rt(prog, case['choices'])
         dis = check_result(prog, res, 'rt')
     return {'violates': any(d[0] == job['kind'] for d in dis),
             'disagreements': [[d[0], repr(d[1])[:300], repr(d[2])[:300]]
@@ -369,26 +1077,66 @@ def main(ctx):
         '(NRT) with every yield sequence up to length L over {0,0.25,0.5,1}, '
         'optionally spawning a child routine at every position on the same '
         'or another clock, plus two-routine programs with a colliding '
-        'function task. RT: every schedule with <=P preemptions and <=L '
-        'late timers; NRT: the deterministic run. Oracle: k-th resumption '
-        'sees start + sum of the first k deltas (through the tempo) exactly; '
-        'children start at the parent\'s logical time. Non-trivial (RT) = '
-        'execution with >=1 deviation; (NRT) = program with nesting or a '
-        'colliding task.')
+        'function task, conductor programs (tempo changed under a pending '
+        'player) and the extended families of programs_ext(): other entry '
+        'points (clock.sched(d, routine), clock.play, sched_abs; from main '
+        'and from inside a routine), sibling tasks that raise or re-schedule '
+        'themselves (same batch / other clock), tempo clocks re-based or '
+        're-tempoed before the start, late physical start of top-level '
+        'routines (RT), grandchildren / two children / children of stepped '
+        'inner routines / nested next(), routines changing the tempo of '
+        'their own clock, conductors acting at the player\'s due beat, int '
+        'and fine dyadic deltas, non-dyadic deltas and tempo 3 (NRT, '
+        'relative tolerance 1e-9), long sequences, physical time passing '
+        'inside one resumption, crowded clocks. RT: every schedule with <=P '
+        'preemptions and <=L late timers; NRT: the deterministic run. '
+        'Oracle: k-th resumption sees start + sum of the first k deltas '
+        '(through the tempo) exactly; children start at the parent\'s '
+        'logical time (the reference interpreter reference() for the '
+        'extended families). Non-trivial (RT) = execution with >=1 '
+        'deviation; (NRT) = program with nesting or a colliding task.')
     ctx.assumptions += [
         'TempoClock plays use quant 0 (default quantisation to the next '
         'whole beat is C12\'s subject)',
-        'all times dyadic, tempos powers of two: expected values are exact',
-        'RT AppClock is excluded (documented to drift)']
+        'RT: all times dyadic, tempos powers of two: expected values are '
+        'exact (virtual physical time is 1024 s based; non-dyadic instants '
+        'are explored in NRT only, with relative tolerance 1e-9)',
+        'RT AppClock is excluded (documented to drift)',
+        'negative deltas and sched_abs into the logical past are outside '
+        'the space (the statement\'s clauses contradict each other there)',
+        'don\'t-care: seconds (not beats) of routines whose clock\'s tempo '
+        'is changed from another clock\'s thread in an RT execution with a '
+        'late timer; the physical instant of a late main-thread wake-up is '
+        'read off the first routine played after it']
     rt = programs(ctx.tier, 'rt')
     nrt = programs(ctx.tier, 'nrt')
-    bounds = [(2, 1)] if ctx.tier == 'quick' else [(3, 2)]
-    for mp, ml in bounds:
-        jobs = [{'progs': c, 'max_pre': mp, 'max_late': ml}
-                for c in chunks(rt, 64)]
-        progenum.run(ctx, MODNAME, 'work_rt', jobs, mode='rt',
-                     bound=f'RT <= {mp} preemptions, <= {ml} late timers')
-    jobs = [{'progs': c} for c in chunks(nrt, 32)]
+    xrt = programs_ext(ctx.tier, 'rt')
+    xnrt = [p for _, p in programs_ext(ctx.tier, 'nrt')]
+    if ctx.tier == 'quick':
+        A, B = (2, 1), (1, 1)
+        sl = core.pick_slice(ctx.seed, 2)
+        xa = [p for i, (c, p) in enumerate(xrt) if c == 'a' and i % 2 == sl]
+        xb = [p for i, (c, p) in enumerate(xrt)
+              if not (c == 'a' and i % 2 == sl)]
+    else:
+        A, B = (3, 2), (2, 2)
+        xa = [p for c, p in xrt if c == 'a']
+        xb = [p for c, p in xrt if c != 'a']
+    groups = [(A, rt, 64, ''), (A, xa, 32, ' (extended families)'),
+              (B, xb, 32, ' (extended families)')]
+    jobs = []
+    for (mp, ml), progs, n, label in groups:
+        jobs += [{'progs': c, 'max_pre': mp, 'max_late': ml,
+                  'bound': f'RT <= {mp} preemptions, <= {ml} late timers'
+                  + label} for c in chunks(progs, n)]
+    for b in sorted({j['bound'] for j in jobs}):
+        progenum.run(ctx, MODNAME, 'work_rt',
+                     [j for j in jobs if j['bound'] == b], mode='rt',
+                     bound=b)
+    jobs = [{'progs': c} for c in chunks(nrt + xnrt, 32)]
     progenum.run(ctx, MODNAME, 'work_nrt', jobs, mode='nrt', bound='NRT')
     ctx.extra['rt_programs'] = len(rt)
     ctx.extra['nrt_programs'] = len(nrt)
+    ctx.extra['rt_programs_extended'] = len(xrt)
+    ctx.extra['nrt_programs_extended'] = len(xnrt)
+    ctx.extra['rt_extended_at_main_bound'] = len(xa)
